@@ -18,10 +18,6 @@ import (
 	"github.com/apache/arrow-go/v18/arrow/memory"
 )
 
-// epochUTC is the Unix epoch interpreted as UTC; used to derive Arrow
-// date32 / time64 / timestamp values from Go time.Time.
-var epochUTC = time.Date(1970, 1, 1, 0, 0, 0, 0, time.UTC)
-
 // asTime converts value to a time.Time, accepting either a plain time.Time
 // or a named type whose underlying type is time.Time (so handlers can
 // declare a typed alias that implements AnnotatedReturn).
@@ -90,7 +86,15 @@ func asBytes(value any) ([]byte, bool) {
 // daysSinceEpoch returns the number of full UTC days between t and the
 // Unix epoch — the Arrow date32 wire encoding.
 func daysSinceEpoch(t time.Time) int32 {
-	return int32(t.UTC().Sub(epochUTC) / (24 * time.Hour))
+	// Floor division on Unix seconds: Sub saturates at +-292 years and Go's
+	// "/" truncates toward zero, which would put any pre-1970 time of day
+	// other than midnight on the following calendar day.
+	secs := t.Unix()
+	days := secs / 86400
+	if secs%86400 < 0 {
+		days--
+	}
+	return int32(days)
 }
 
 // microsSinceMidnight returns the wall-clock microsecond offset of t
